@@ -28,7 +28,9 @@ impl Sim {
         match self {
             Sim::AcceptAll => RouteSimilarityFunction::AcceptAll,
             Sim::EdgeCos(t) => RouteSimilarityFunction::EdgeIdCosineSimilarity { threshold: *t },
-            Sim::DistCos(t) => RouteSimilarityFunction::DistanceWeightedCosineSimilarity { threshold: *t },
+            Sim::DistCos(t) => {
+                RouteSimilarityFunction::DistanceWeightedCosineSimilarity { threshold: *t }
+            }
         }
     }
 }
@@ -52,8 +54,18 @@ impl KTerm {
 pub enum Algo {
     Dijkstra,
     AStar(Option<f64>),
-    SingleVia { k: usize, under: Box<Algo>, sim: Option<Sim>, term: Option<KTerm> },
-    Yens { k: usize, under: Box<Algo>, sim: Option<Sim>, term: Option<KTerm> },
+    SingleVia {
+        k: usize,
+        under: Box<Algo>,
+        sim: Option<Sim>,
+        term: Option<KTerm>,
+    },
+    Yens {
+        k: usize,
+        under: Box<Algo>,
+        sim: Option<Sim>,
+        term: Option<KTerm>,
+    },
 }
 
 impl Algo {
@@ -64,7 +76,9 @@ impl Algo {
             None => serde_json::Value::Null,
             Some(Sim::AcceptAll) => json!({"type": "accept_all"}),
             Some(Sim::EdgeCos(t)) => json!({"type": "edge_id_cosine_similarity", "threshold": t}),
-            Some(Sim::DistCos(t)) => json!({"type": "distance_weighted_cosine_similarity", "threshold": t}),
+            Some(Sim::DistCos(t)) => {
+                json!({"type": "distance_weighted_cosine_similarity", "threshold": t})
+            }
         };
         let term_json = |t: &Option<KTerm>| match t {
             None => serde_json::Value::Null,
@@ -86,8 +100,18 @@ impl Algo {
             Algo::Dijkstra => json!({"type": "dijkstra"}),
             Algo::AStar(None) => json!({"type": "a*"}),
             Algo::AStar(Some(w)) => json!({"type": "a*", "weight_factor": w}),
-            Algo::SingleVia { k, under, sim, term } => ksp("ksp_single_via", k, under, sim, term),
-            Algo::Yens { k, under, sim, term } => ksp("yens", k, under, sim, term),
+            Algo::SingleVia {
+                k,
+                under,
+                sim,
+                term,
+            } => ksp("ksp_single_via", k, under, sim, term),
+            Algo::Yens {
+                k,
+                under,
+                sim,
+                term,
+            } => ksp("yens", k, under, sim, term),
         }
     }
     /// built the way the application builds it: deserialised from the configuration section (a section the library does not
@@ -95,7 +119,11 @@ impl Algo {
     pub fn real(&self) -> SearchAlgorithm {
         match serde_json::from_value::<SearchAlgorithm>(self.config_json()) {
             Ok(a) => a,
-            Err(e) => panic!("harness: the library rejects the algorithm section {}: {}", self.config_json(), e),
+            Err(e) => panic!(
+                "harness: the library rejects the algorithm section {}: {}",
+                self.config_json(),
+                e
+            ),
         }
     }
     /// the same algorithm constructed directly (not used by the checks; kept as documentation of the intended value)
@@ -103,14 +131,26 @@ impl Algo {
     pub fn constructed(&self) -> SearchAlgorithm {
         match self {
             Algo::Dijkstra => SearchAlgorithm::Dijkstra,
-            Algo::AStar(w) => SearchAlgorithm::AStarAlgorithm { weight_factor: w.map(Cost::new) },
-            Algo::SingleVia { k, under, sim, term } => SearchAlgorithm::KspSingleVia {
+            Algo::AStar(w) => SearchAlgorithm::AStarAlgorithm {
+                weight_factor: w.map(Cost::new),
+            },
+            Algo::SingleVia {
+                k,
+                under,
+                sim,
+                term,
+            } => SearchAlgorithm::KspSingleVia {
                 k: *k,
                 underlying: Box::new(under.constructed()),
                 similarity: sim.as_ref().map(|s| s.real()),
                 termination: term.as_ref().map(|t| t.real()),
             },
-            Algo::Yens { k, under, sim, term } => SearchAlgorithm::Yens {
+            Algo::Yens {
+                k,
+                under,
+                sim,
+                term,
+            } => SearchAlgorithm::Yens {
                 k: *k,
                 underlying: Box::new(under.constructed()),
                 similarity: sim.as_ref().map(|s| s.real()),
@@ -156,7 +196,11 @@ pub struct TreeEntry {
 
 #[derive(Debug, Clone)]
 pub enum Outcome {
-    Ok { routes: Vec<Vec<RouteEdge>>, trees: Vec<Vec<TreeEntry>>, iterations: u64 },
+    Ok {
+        routes: Vec<Vec<RouteEdge>>,
+        trees: Vec<Vec<TreeEntry>>,
+        iterations: u64,
+    },
     NoPath(String),
     Terminated(String),
     OtherErr(String),
@@ -175,8 +219,17 @@ impl Outcome {
     }
     pub fn text(&self) -> String {
         match self {
-            Outcome::Ok { routes, .. } => format!("ok routes={:?}", routes.iter().map(|r| r.iter().map(|e| e.edge).collect::<Vec<_>>()).collect::<Vec<_>>()),
-            Outcome::NoPath(s) | Outcome::Terminated(s) | Outcome::OtherErr(s) | Outcome::Panic(s) => format!("{}: {}", self.kind(), s),
+            Outcome::Ok { routes, .. } => format!(
+                "ok routes={:?}",
+                routes
+                    .iter()
+                    .map(|r| r.iter().map(|e| e.edge).collect::<Vec<_>>())
+                    .collect::<Vec<_>>()
+            ),
+            Outcome::NoPath(s)
+            | Outcome::Terminated(s)
+            | Outcome::OtherErr(s)
+            | Outcome::Panic(s) => format!("{}: {}", self.kind(), s),
         }
     }
 }
@@ -209,18 +262,33 @@ fn conv_tree(t: &HashMap<VertexId, SearchTreeBranch>) -> Vec<TreeEntry> {
 
 pub fn classify_err(e: &SearchError) -> Outcome {
     match e {
-        SearchError::NoPathExistsBetweenVertices(..) | SearchError::NoPathExistsBetweenEdges(..) => Outcome::NoPath(e.to_string()),
-        SearchError::TerminationModelFailure { .. } | SearchError::QueryTerminated(_) => Outcome::Terminated(e.to_string()),
+        SearchError::NoPathExistsBetweenVertices(..)
+        | SearchError::NoPathExistsBetweenEdges(..) => Outcome::NoPath(e.to_string()),
+        SearchError::TerminationModelFailure { .. } | SearchError::QueryTerminated(_) => {
+            Outcome::Terminated(e.to_string())
+        }
         _ => Outcome::OtherErr(e.to_string()),
     }
 }
 
 /// runs the real search entry point
-pub fn run_search(si: &SearchInstance, algo: &Algo, orient: &Orient, reverse: bool, query: &Value) -> Outcome {
+pub fn run_search(
+    si: &SearchInstance,
+    algo: &Algo,
+    orient: &Orient,
+    reverse: bool,
+    query: &Value,
+) -> Outcome {
     let alg = algo.real();
-    let dir = if reverse { Direction::Reverse } else { Direction::Forward };
+    let dir = if reverse {
+        Direction::Reverse
+    } else {
+        Direction::Forward
+    };
     let r = guarded(|| match orient {
-        Orient::Vertex { o, d } => alg.run_vertex_oriented(VertexId(*o), d.map(VertexId), query, &dir, si),
+        Orient::Vertex { o, d } => {
+            alg.run_vertex_oriented(VertexId(*o), d.map(VertexId), query, &dir, si)
+        }
         Orient::Edge { o, d } => alg.run_edge_oriented(EdgeId(*o), d.map(EdgeId), query, &dir, si),
     });
     match r {
@@ -236,7 +304,12 @@ pub fn run_search(si: &SearchInstance, algo: &Algo, orient: &Orient, reverse: bo
 
 /// structural route clauses of C01. returns (clause, detail) for each failed clause.
 /// for reverse searches the route is ordered in search direction (from the search origin outwards).
-pub fn route_structure(net: &Net, route: &[usize], orient: &Orient, reverse: bool) -> Vec<(&'static str, String)> {
+pub fn route_structure(
+    net: &Net,
+    route: &[usize],
+    orient: &Orient,
+    reverse: bool,
+) -> Vec<(&'static str, String)> {
     let mut bad = vec![];
     if route.is_empty() {
         bad.push(("route_non_empty", "empty route".to_string()));
@@ -256,37 +329,71 @@ pub fn route_structure(net: &Net, route: &[usize], orient: &Orient, reverse: boo
     match orient {
         Orient::Vertex { o, d } => {
             if near(route[0]) != *o {
-                bad.push(("route_first_edge_leaves_origin", format!("first edge {} starts at {} not at origin {}", route[0], near(route[0]), o)));
+                bad.push((
+                    "route_first_edge_leaves_origin",
+                    format!(
+                        "first edge {} starts at {} not at origin {}",
+                        route[0],
+                        near(route[0]),
+                        o
+                    ),
+                ));
             }
             if let Some(d) = d {
                 let last = *route.last().unwrap();
                 if far(last) != *d {
-                    bad.push(("route_last_edge_arrives_at_destination", format!("last edge {} ends at {} not at destination {}", last, far(last), d)));
+                    bad.push((
+                        "route_last_edge_arrives_at_destination",
+                        format!(
+                            "last edge {} ends at {} not at destination {}",
+                            last,
+                            far(last),
+                            d
+                        ),
+                    ));
                 }
             }
         }
         Orient::Edge { o, d } => {
             if route[0] != *o {
-                bad.push(("route_first_edge_is_origin_edge", format!("first edge is {} not the origin edge {}", route[0], o)));
+                bad.push((
+                    "route_first_edge_is_origin_edge",
+                    format!("first edge is {} not the origin edge {}", route[0], o),
+                ));
             }
             if let Some(d) = d {
                 let last = *route.last().unwrap();
                 if last != *d {
-                    bad.push(("route_last_edge_is_destination_edge", format!("last edge is {} not the destination edge {}", last, d)));
+                    bad.push((
+                        "route_last_edge_is_destination_edge",
+                        format!("last edge is {} not the destination edge {}", last, d),
+                    ));
                 }
             }
         }
     }
     for w in route.windows(2) {
         if far(w[0]) != near(w[1]) {
-            bad.push(("route_edges_chain", format!("edge {} ends at {} but next edge {} starts at {}", w[0], far(w[0]), w[1], near(w[1]))));
+            bad.push((
+                "route_edges_chain",
+                format!(
+                    "edge {} ends at {} but next edge {} starts at {}",
+                    w[0],
+                    far(w[0]),
+                    w[1],
+                    near(w[1])
+                ),
+            ));
             break;
         }
     }
     let mut seen = std::collections::HashSet::new();
     for e in route {
         if !seen.insert(*e) {
-            bad.push(("route_no_edge_twice", format!("edge {} occurs twice in {:?}", e, route)));
+            bad.push((
+                "route_no_edge_twice",
+                format!("edge {} occurs twice in {:?}", e, route),
+            ));
             break;
         }
     }
@@ -294,18 +401,40 @@ pub fn route_structure(net: &Net, route: &[usize], orient: &Orient, reverse: boo
 }
 
 /// tree clauses of C01. `root` is the search origin vertex (head of the origin edge for edge orientation).
-pub fn tree_structure(net: &Net, tree: &[TreeEntry], root: usize, reverse: bool, origin_edge: Option<usize>) -> Vec<(&'static str, String)> {
+pub fn tree_structure(
+    net: &Net,
+    tree: &[TreeEntry],
+    root: usize,
+    reverse: bool,
+    origin_edge: Option<usize>,
+) -> Vec<(&'static str, String)> {
     let mut bad = vec![];
     let map: HashMap<usize, &TreeEntry> = tree.iter().map(|e| (e.vertex, e)).collect();
     for t in tree {
         if t.edge >= net.m() {
-            bad.push(("tree_edge_joins_parent_to_vertex", format!("entry {} records edge {} which is not in the network", t.vertex, t.edge)));
+            bad.push((
+                "tree_edge_joins_parent_to_vertex",
+                format!(
+                    "entry {} records edge {} which is not in the network",
+                    t.vertex, t.edge
+                ),
+            ));
             continue;
         }
         let (s, d, _) = net.edges[t.edge];
-        let ok = if reverse { s == t.vertex && d == t.parent } else { s == t.parent && d == t.vertex };
+        let ok = if reverse {
+            s == t.vertex && d == t.parent
+        } else {
+            s == t.parent && d == t.vertex
+        };
         if !ok {
-            bad.push(("tree_edge_joins_parent_to_vertex", format!("entry {} <- parent {} records edge {} which is {}->{}", t.vertex, t.parent, t.edge, s, d)));
+            bad.push((
+                "tree_edge_joins_parent_to_vertex",
+                format!(
+                    "entry {} <- parent {} records edge {} which is {}->{}",
+                    t.vertex, t.parent, t.edge, s, d
+                ),
+            ));
         }
     }
     // parent chains
@@ -343,13 +472,25 @@ pub fn tree_structure(net: &Net, tree: &[TreeEntry], root: usize, reverse: bool,
             }
             match map.get(&v) {
                 None => {
-                    bad.push(("tree_parents_reach_origin", format!("chain from {} stops at {} which has no entry and is not the origin {}", t.vertex, v, root)));
+                    bad.push((
+                        "tree_parents_reach_origin",
+                        format!(
+                            "chain from {} stops at {} which has no entry and is not the origin {}",
+                            t.vertex, v, root
+                        ),
+                    ));
                     break;
                 }
                 Some(e) => {
                     v = e.parent;
                     if v != root && visited.contains(&v) {
-                        bad.push(("tree_parents_reach_origin", format!("chain from {} revisits {} (visited {:?})", t.vertex, v, visited)));
+                        bad.push((
+                            "tree_parents_reach_origin",
+                            format!(
+                                "chain from {} revisits {} (visited {:?})",
+                                t.vertex, v, visited
+                            ),
+                        ));
                         break;
                     }
                     visited.push(v);
@@ -357,7 +498,10 @@ pub fn tree_structure(net: &Net, tree: &[TreeEntry], root: usize, reverse: bool,
             }
             steps += 1;
             if steps > net.n + 2 {
-                bad.push(("tree_parents_reach_origin", format!("chain from {} does not end", t.vertex)));
+                bad.push((
+                    "tree_parents_reach_origin",
+                    format!("chain from {} does not end", t.vertex),
+                ));
                 break;
             }
         }
@@ -369,11 +513,20 @@ pub fn tree_structure(net: &Net, tree: &[TreeEntry], root: usize, reverse: bool,
 
 /// C03 accumulation oracle over one route. `prev_edge_before_first` is None for plain searches.
 /// returns failed clauses. in edge orientation origin/destination edges may follow the zero-cost convention.
-pub fn route_accumulation(w: &World, route: &[RouteEdge], orient: &Orient, reverse: bool) -> Vec<(&'static str, String)> {
+pub fn route_accumulation(
+    w: &World,
+    route: &[RouteEdge],
+    orient: &Orient,
+    reverse: bool,
+) -> Vec<(&'static str, String)> {
     let mut bad = vec![];
     let tol = w.tol();
     let has_time = w.has_time();
-    let init = if has_time { vec![w.init_dist, w.init_time] } else { vec![w.init_dist] };
+    let init = if has_time {
+        vec![w.init_dist, w.init_time]
+    } else {
+        vec![w.init_dist]
+    };
     let edge_oriented = matches!(orient, Orient::Edge { .. });
     let n = route.len();
     let mut state = init.clone();
@@ -382,7 +535,15 @@ pub fn route_accumulation(w: &World, route: &[RouteEdge], orient: &Orient, rever
     let mut prev_zero_conv = false;
     for (i, re) in route.iter().enumerate() {
         if re.state.len() != init.len() {
-            bad.push(("state_vector_has_one_slot_per_feature", format!("edge {} reports {} state entries, model has {}", re.edge, re.state.len(), init.len())));
+            bad.push((
+                "state_vector_has_one_slot_per_feature",
+                format!(
+                    "edge {} reports {} state entries, model has {}",
+                    re.edge,
+                    re.state.len(),
+                    init.len()
+                ),
+            ));
             return bad;
         }
         let (dd, dt) = w.ref_edge_delta(re.edge);
@@ -393,17 +554,43 @@ pub fn route_accumulation(w: &World, route: &[RouteEdge], orient: &Orient, rever
             // exactly unchanged state: the zero-cost convention of the statement's exception
             candidates.push((state.clone(), true));
         }
-        let delay = prev_edge.map(|p| if reverse { w.ref_turn_delay(re.edge, p) } else { w.ref_turn_delay(p, re.edge) }).unwrap_or(0.0);
-        let full = if has_time { vec![state[0] + dd, state[1] + dt + delay] } else { vec![state[0] + dd] };
+        let delay = prev_edge
+            .map(|p| {
+                if reverse {
+                    w.ref_turn_delay(re.edge, p)
+                } else {
+                    w.ref_turn_delay(p, re.edge)
+                }
+            })
+            .unwrap_or(0.0);
+        let full = if has_time {
+            vec![state[0] + dd, state[1] + dt + delay]
+        } else {
+            vec![state[0] + dd]
+        };
         candidates.push((full, false));
         if prev_zero_conv && has_time {
             // the turn out of a zero-convention origin edge may be left uncharged
             candidates.push((vec![state[0] + dd, state[1] + dt], false));
         }
-        let matched = candidates.iter().find(|(c, _)| c.iter().zip(re.state.iter()).all(|(a, b)| close(*a, *b, tol)));
+        let matched = candidates.iter().find(|(c, _)| {
+            c.iter()
+                .zip(re.state.iter())
+                .all(|(a, b)| close(*a, *b, tol))
+        });
         match matched {
             None => {
-                bad.push(("state_is_sum_over_edges", format!("after edge {} (position {}) state is {:?}, reference {:?} (from {:?})", re.edge, i, re.state, candidates.last().map(|c| c.0.clone()), state)));
+                bad.push((
+                    "state_is_sum_over_edges",
+                    format!(
+                        "after edge {} (position {}) state is {:?}, reference {:?} (from {:?})",
+                        re.edge,
+                        i,
+                        re.state,
+                        candidates.last().map(|c| c.0.clone()),
+                        state
+                    ),
+                ));
                 return bad;
             }
             Some((_, zero)) => {
@@ -412,17 +599,32 @@ pub fn route_accumulation(w: &World, route: &[RouteEdge], orient: &Orient, rever
                 let total = re.access + re.traversal;
                 if *zero {
                     if total != 0.0 {
-                        bad.push(("edge_cost_is_weighted_state_change", format!("edge {} keeps the state but charges {}", re.edge, total)));
+                        bad.push((
+                            "edge_cost_is_weighted_state_change",
+                            format!("edge {} keeps the state but charges {}", re.edge, total),
+                        ));
                     }
                 } else {
                     let rd = re.state[0] - prev_state[0];
-                    let rt = if has_time { re.state[1] - prev_state[1] } else { 0.0 };
+                    let rt = if has_time {
+                        re.state[1] - prev_state[1]
+                    } else {
+                        0.0
+                    };
                     let mut want = w.ref_vehicle_cost(rd, rt) + w.ref_surcharge(re.edge);
                     if want <= 0.0 {
                         want = 1e-10;
                     }
                     // a turn surcharge is part of the charged cost by the statement; checked in C07, accepted both ways here
-                    let want_with_turn = prev_edge.map(|p| want + if reverse { w.ref_turn_surcharge(re.edge, p) } else { w.ref_turn_surcharge(p, re.edge) }).unwrap_or(want);
+                    let want_with_turn = prev_edge
+                        .map(|p| {
+                            want + if reverse {
+                                w.ref_turn_surcharge(re.edge, p)
+                            } else {
+                                w.ref_turn_surcharge(p, re.edge)
+                            }
+                        })
+                        .unwrap_or(want);
                     if !(close(total, want, 1e-9) || close(total, want_with_turn, 1e-9)) {
                         bad.push(("edge_cost_is_weighted_state_change", format!("edge {}: access {} + traversal {} = {} but weighted rated state change is {}", re.edge, re.access, re.traversal, total, want)));
                     }
@@ -432,7 +634,10 @@ pub fn route_accumulation(w: &World, route: &[RouteEdge], orient: &Orient, rever
         }
         // monotone
         if re.state[0] < state[0] - 1e-12 || (has_time && re.state[1] < state[1] - 1e-12) {
-            bad.push(("distance_and_time_never_decrease", format!("state {:?} -> {:?}", state, re.state)));
+            bad.push((
+                "distance_and_time_never_decrease",
+                format!("state {:?} -> {:?}", state, re.state),
+            ));
         }
         state = re.state.clone();
         prev_edge = Some(re.edge);
